@@ -1,13 +1,14 @@
 (* C01 — End-to-end fidelity: what an exporter is given is what a collector delivers.
    Only the property theorems; proofs in Proofs/E2E_lemmas.v (composition of the codec round
    trip C15, the message layout C16/C02, the template decoding C03 and the framing C11) and
-   Proofs/C01_lemmas.v (the SendSet bookkeeping around them: C01_oracle). *)
+   Proofs/C01_lemmas.v (the SendSet bookkeeping around them: C01_oracle) and
+   Proofs/C01_chain_lemmas.v (histories of exchanges against one collector: C01_chain_oracle). *)
 From Coq Require Import List Bool Arith NArith String.
 From Coq.Strings Require Import Byte.
 From Verif.Base Require Import Bytes Outcome.
 From Verif.Model Require Import IE Codec Record SetB Msg Decode Frame E2E.
-From Verif.Proofs Require Import Decode_roundtrip E2E_lemmas C01_lemmas.
-From Verif.Driver Require Import C11drv C01single.
+From Verif.Proofs Require Import Decode_roundtrip E2E_lemmas C01_lemmas C01_chain_lemmas.
+From Verif.Driver Require Import C11drv C01single C01drv.
 Import ListNotations.
 Local Open Scope N_scope.
 
@@ -93,6 +94,24 @@ Theorem C01_refuted_multi_template :
 Proof. exact c01_refuted_multi_template. Qed.
 Print Assumptions C01_refuted_multi_template.
 
+(* (8) histories: for EVERY chain of exchanges against one collector inside the hypotheses
+   (chain_hyp: every exchange has a registry template of supported types with a positive minimum
+   record length, well-typed records in every data set, template id in 256..65535, observation
+   domain below 2^32, every message within 65535 bytes - 65507 over UDP, 8155 over DTLS) - any
+   number of exchanges, any number of data sets and records per exchange, all transports, later
+   exchanges free to REDEFINE an (observation domain, template id) of an earlier one with another
+   template - the composed model (a fresh exporting process per exchange: SendSet of the template
+   set, then of every data set, with the sanity checks, the registration and the sequence counter
+   moving by the record counts; ONE collector whose template table persists over the whole
+   chain, a stream transport stopping at the first undecodable message) yields exactly the
+   rendering of what each exchange was given: every SendSet reports the message length, every
+   exchange delivers its own template and, for every data set, its own records with every value
+   bit-identical, decoded with the template in force - whatever earlier exchanges left in the
+   collector's table. No hypothesis beyond chain_hyp is needed *)
+Theorem C01_chain_oracle : forall c, chain_hyp c = true -> chain_model c = chain_spec c.
+Proof. exact chain_oracle. Qed.
+Print Assumptions C01_chain_oracle.
+
 Example C01_nonvacuous :
   let tpl := [mkIE "sourceIPv4Address" 8 Ipv4Address 0 4; mkIE "octetDeltaCount" 1 Unsigned64 0 8] in
   tpl_ok tpl = true /\
@@ -109,5 +128,24 @@ Example C01_oracle_nonvacuous :
                 k_tpl := [e1; e2];
                 k_recs := [[(e1, VIP (Some [x0a; x00; x00; x01])); (e2, VU64 18446744073709551615)]] |} in
     c01_hyp c && dtls_fits c && String.eqb (c01_model c) (c01_spec c))
+    ["tcp"; "udp"; "tls"; "dtls"]%string = true.
+Proof. vm_compute. reflexivity. Qed.
+
+(* the hypothesis of C01_chain_oracle is satisfiable, on every transport, by a chain whose second
+   exchange redefines the first one's (domain 7, template id 256) with another template (two
+   elements, then one), with several data sets per exchange; on it the oracle of the driver
+   accepts the model's observation and the second exchange's records are delivered with the
+   NEW template's element *)
+Example C01_chain_oracle_nonvacuous :
+  forallb (fun tr =>
+    let c := chain_redefine tr in
+    chain_hyp c && Nat.eqb (List.length (ch_ex c)) 2 &&
+    match ch_ex c with
+    | [a; b] => N.eqb (x_obsd a) (x_obsd b) && N.eqb (x_tid a) (x_tid b) &&
+                negb (Nat.eqb (List.length (x_tpl a)) (List.length (x_tpl b)))
+    | _ => false
+    end &&
+    String.eqb (chain_model c) (chain_spec c) && chain_holds_on c (chain_model c) &&
+    contains " D:7:256 n=2 ; u64 6 ; u64 7 E 1/0/octetDeltaCount" (chain_model c))
     ["tcp"; "udp"; "tls"; "dtls"]%string = true.
 Proof. vm_compute. reflexivity. Qed.
